@@ -554,6 +554,10 @@ def run_C01(ctx):
     r3 = ctx.tlc("MC_C07", cfg="MC_C07_quick.cfg", timeout=3000)
     res3 = ctx.vh_isolated("c07-replay", r3.out, chunk=20000, timeout=900, sig_prefix="c01")
     ctx.absorb(_only(res3, ["c01:", "c07:panic"]), "G:c07-replay(include graphs, crash-only)")
+    # type graphs (references, 'or', properties, items, allOf; cyclic or not) x every site that uses a type
+    r4 = ctx.tlc("MC_C01types", cfg="MC_C01types_quick.cfg" if ctx.quick else "MC_C01types_thorough.cfg", timeout=1800)
+    res4 = ctx.vh_isolated("types-build", r4.out, chunk=4000, timeout=600, sig_prefix="c01")
+    ctx.absorb(res4, "G:types-build")
     # fuzz
     n = 300000 if ctx.quick else 6000000
     fz = _fuzz_ranges(ctx, ctx.seed, n)
